@@ -482,6 +482,22 @@ def check(ctx, rep, rule):
         # representative: the member called from the most members (stable when helpers join the cycle)
         indeg = {c: sum(1 for d in comp if c in g.get(d, ())) for c in comp}
         rep_member = sorted(comp, key=lambda c: (-indeg[c], c))[0]
+        # a cycle made of functions the pinned tree does not have (the recursion was moved into a helper) is named after the pinned
+        # function it is entered from: the same recursion keeps the same name
+        try:
+            from mirlib import load_pinned
+            _pin = load_pinned()
+            pinned_lib = set(_pin['lib']) if _pin and 'lib' in _pin else None
+        except Exception:
+            pinned_lib = None
+        if pinned_lib is not None and not any(c in pinned_lib for c in comp):
+            entries = sorted(k_ for k_ in g if k_ not in comp and k_ in pinned_lib and (g[k_] & set(comp)))
+            if len(entries) == 1:
+                rep_member = entries[0]
+        elif pinned_lib is not None and rep_member not in pinned_lib:
+            pm = sorted((c for c in comp if c in pinned_lib), key=lambda c: (-indeg[c], c))
+            if pm:
+                rep_member = pm[0]
         name = 'cycle through %s' % rep_member.split('::')[-1]
         members = ', '.join(c.split('::')[-1] for c in comp[:8])
         if all(c.startswith(P) or c == 'parser::parse' for c in comp):
